@@ -25,11 +25,23 @@ PROPS = {
         "engine": "B", "level": "exploration",
         "tiers": {"quick": {"batches": 16, "runs": 250, "budget_s": 50, "floor_runs": 800},
                   "thorough": {"batches": 64, "runs": 3000, "budget_s": 550, "floor_runs": 30000}},
-        "rule": "TBD",
+        "rule": "one run = one well-formed builder program on one shared Hugr: root drawn among Module / Dfg / Function / Cfg / Conditional / TailLoop / TrackedDfg; every open builder (function body, nested DFG, case, basic block, loop body) and every container controller (module, conditional, CFG) is an actor and the seeded scheduler picks which one makes the next public call (add_op / add / extend / load / call / load_function / add_nested / add_cfg / add_conditional / add_if / add_else / add_tail_loop / define_function / declare_function / add_state_order / add_entry / add_block / add_successor / branch / branch_exit / set_outputs ...); type-directed generation over copyable, linear, sum, tuple, function, extension and variable types with Ext and Dom wires, multi-output ops partially used, constants in outer scopes, recursion, polymorphic and row-polymorphic callees; the serialised result is judged by a reference validator written from validate.rs; non-trivial = >= 3 builder calls; distinct = distinct event-log digests",
         "real": ["all builders (Dfg, Function, Module, Cfg/Block, Conditional/Case/If/Else, TailLoop, TrackedDfg), ops, tys, val, graph store, JSON serialiser"],
         "stub": ["hugr validate (Rust) -> oracles/refvalidate.py"],
         "technique": "seeded interleaving of open builder actors on one shared Hugr (type-directed well-formed programs), output checked by a reference validator written from validate.rs",
-        "level_text": "TBD", "level_note": "TBD",
+        "level_text": "C01 quantifies over builder programs including the interleaving of calls on several open builders, which is where the builders' port bookkeeping and order-edge insertion depend on history. The check samples that space with a seeded scheduler over builder actors and judges each product with an independent implementation of the validity rules the statement lists (parent/child pairs, I/O positions and rows, port counts, edge kinds and types, acyclicity, order edges for Ext edges, dominance, no value edge into a function, constants inhabiting their type).", "level_note": "Trusted: oracles/refsem.py + refvalidate.py (written from hugr-core validate.rs / ops/validate.rs; clauses named in DESIGN Appendix B). Not checked: extension-delta inference, TypeArg-vs-TypeParam checks, Call instantiation == substitution, opaque-op resolution (extension ops are taken at their written signature). Program-space bounds: canonical sum representation (never a general sum whose rows are all empty), no detached insert_* in this property's workload (covered by C08), Dom wires only in a block's own calls.",
+    },
+    "C02": {
+        "engine": "A+B+C", "level": "exploration",
+        "tiers": {"quick": {"batches": 16, "runs": 200, "budget_s": 50, "floor_runs": 800},
+                  "thorough": {"batches": 64, "runs": 2500, "budget_s": 550, "floor_runs": 30000}},
+        "rule": "one run = a HUGR with a history: (i) an engine-B builder product, (ii) an engine-A client history (add/delete/insert, metadata from everything JSON carries, ops with type parameters, extension deltas, descriptions, type args), or (iii) an engine-B product mutated by engine-A clients (delete leaves, reuse freed indices, add/delete links, insert); then to_json -> load_json in the same process or, in a quarter of the runs, in a reader node started as a separate interpreter with another PYTHONHASHSEED; clauses: load-succeeds, doc-fixpoint, op-encoding, hierarchy with child order, metadata, link multiset incl. order links; non-trivial = >= 3 calls; distinct = distinct event-log digests", "real": ["Hugr.to_json / load_json, _serialization models (pydantic), ops/tys/val codecs, graph store, builders", "the reader node is a real second interpreter (fresh module state, different PYTHONHASHSEED)"], "stub": ["the storage between writer and reader is a pipe owned by the simulator (no storage faults have an oracle for this property)"], "expected_probes": ["serialised_after_deletion", "serialised_after_index_reuse", "non_contiguous_indices", "index_order_not_hierarchy_consistent", "restart_read"], "technique": "seeded build + mutation histories, then a write / restart / read cycle: the reader is a fresh interpreter with a different hash seed and only the document crosses; observation-equality oracle clause by clause", "level_text": "The HUGRs the statement quantifies over are reachable only through histories (deletion, index reuse, interleaved builders), and the second party of a round trip is another process: the check generates the histories with engines A and B and reads the document back both in-process and in a restarted interpreter with a different hash seed, comparing the loaded HUGR's public observation and re-serialised document with the original's.", "level_note": "Trusted: the correspondence rule in engines/c_persist.py (root to root, k-th child to k-th child; where increasing index is hierarchy-consistent it must be the order-preserving renumbering the statement licenses). Order links of the original (offset -1) are compared at the order-port offset refsem predicts. NaN/inf metadata excluded (not JSON). Engine-A order links only on ops that have an order port.",
+    },
+    "C03": {
+        "engine": "A+B+C", "level": "exploration",
+        "tiers": {"quick": {"batches": 16, "runs": 120, "budget_s": 50, "floor_runs": 500},
+                  "thorough": {"batches": 64, "runs": 1500, "budget_s": 550, "floor_runs": 20000}},
+        "rule": "same workloads as C02; every emitted SerialHugr document (and Package document, and the document a restarted reader node re-emits) is validated against specification/schema/hugr_schema_strict_live.json, checked for index sanity, and - for HUGRs whose links attach only to ports their operations have (all builder products; engine-A histories in in-range mode) - every in-memory link must be addressed in the document at the offset refsem predicts from the serialised op (value port = signature position, static port after the value inputs, order port after those), independently of how many ports are connected; non-trivial = >= 3 calls; distinct = distinct event-log digests", "real": ["Hugr / Package serialisation, _serialization models", "jsonschema validation against the published strict schema file", "reader node (separate interpreter) for re-emitted documents"], "stub": ["Rust reader (serialize.rs) -> oracles/wire.py + refsem.py"], "expected_probes": ["serialised_after_deletion", "serialised_after_index_reuse", "index_order_not_hierarchy_consistent", "restart_read"], "technique": "seeded build + mutation histories (deletion, index reuse, partially connected multi-output nodes with order edges), documents judged by the published strict JSON schema + index sanity + a reader-side port-addressing model; a restarted reader node re-emits and is judged too", "level_text": "What can break the wire format is history: deletions and index reuse (index sanity), and the order in which builders happened to link ports (order-edge offsets). The check reuses the C02 workloads and judges every emitted document with the published strict schema and with an independent model of the reader's addressing contract (serialize.rs), never with hugr-py's own port counters.", "level_note": "Trusted: jsonschema 4.26 (offline wheelhouse, installed into /verif/.deps), the published strict schema file, oracles/refsem.py for port addressing, oracles/wire.py. Extension documents are validated in C10's check.",
     },
     "C04": {
         "engine": "A", "level": "exploration",
@@ -138,6 +150,10 @@ def tier_cfg(prop: str, tier: str) -> dict:
 ENGINES = [
     {"name": "A", "path": "hugrsim/engines/a_graph.py", "serves_properties": ["C04", "C08", "C16", "C02", "C03"],
      "kind_free_text": "graph-store client actors on one shared Hugr, mirrored on oracles/refgraph.py; seeded scheduler picks the next caller"},
+    {"name": "B", "path": "hugrsim/engines/b_builders.py", "serves_properties": ["C01", "C13", "C16", "C02", "C03", "C08", "C12", "C20"],
+     "kind_free_text": "interleaved open builders on one shared Hugr: each open builder / container controller is an actor, the seeded scheduler picks the next caller; type-directed well-formed programs; request-level fault injection for C13"},
+    {"name": "C", "path": "hugrsim/engines/c_persist.py, hugrsim/restart.py, hugrsim/reader_main.py", "serves_properties": ["C02", "C03", "C09", "C10"],
+     "kind_free_text": "write / restart / read: the reader is a separate interpreter with another PYTHONHASHSEED, only the stored bytes cross; storage faults on envelope bytes for C09"},
     {"name": "D", "path": "hugrsim/props/c18.py, c19.py, c15.py", "serves_properties": ["C18", "C19", "C15"],
      "kind_free_text": "small state machines: seeded operation histories vs sequential reference models"},
 ]
